@@ -98,6 +98,71 @@ func (fg *FnGen) lockAcquire(comp string, idx Term, pos token.Pos, path string) 
 	}
 	// atomics guarded by this lock become stable: forget stale knowledge now, keep it while held
 	fg.havocAtomicsGuardedBy(path, idx)
+	fg.clearObservations(path, idx)
+}
+
+// clearObservations: flag observations are valid only within one critical section of the guarding lock.
+func (fg *FnGen) clearObservations(lockPath string, idx Term) {
+	for _, d := range fg.g.cs.Decls {
+		if d.Kind != "guarded" || len(d.Args) < 5 || d.Args[3] != "when" {
+			continue
+		}
+		i := strings.LastIndex(lockPath, ".")
+		if i < 0 {
+			continue
+		}
+		lk := d.Args[2]
+		if j := strings.LastIndex(lk, "."); j >= 0 {
+			lk = lk[j+1:]
+		}
+		tn := d.Args[0]
+		if j := strings.LastIndex(tn, "."); j >= 0 {
+			tn = tn[:j]
+		}
+		if lockPath[i+1:] != lk || !strings.HasSuffix(lockPath[:i], tn) {
+			continue
+		}
+		flag := strings.TrimPrefix(d.Args[4], "!")
+		comp := "obs:" + lockPath[:i] + "." + flag
+		a := fg.get(fg.cur, comp, ArrSort(SBool))
+		fg.set(comp, Store(a, idx, TFalse))
+	}
+}
+
+// recordObservation: an atomic flag was loaded; if a guarded declaration refers to it, remember whether
+// the wanted value was seen while the guarding lock is held.
+func (fg *FnGen) recordObservation(flagPath string, idx Term, val Term) {
+	if val.Sort != SBool {
+		return
+	}
+	for _, d := range fg.g.cs.Decls {
+		if d.Kind != "guarded" || len(d.Args) < 5 || d.Args[3] != "when" {
+			continue
+		}
+		neg := strings.HasPrefix(d.Args[4], "!")
+		flag := strings.TrimPrefix(d.Args[4], "!")
+		tn := d.Args[0]
+		if j := strings.LastIndex(tn, "."); j >= 0 {
+			tn = tn[:j]
+		}
+		i := strings.LastIndex(flagPath, ".")
+		if i < 0 || flagPath[i+1:] != flag || !strings.HasSuffix(flagPath[:i], tn) {
+			continue
+		}
+		lk := d.Args[2]
+		if j := strings.LastIndex(lk, "."); j >= 0 {
+			lk = lk[j+1:]
+		}
+		lockPath := flagPath[:i] + "." + lk
+		h := fg.get(fg.cur, "held:"+lockPath, ArrSort(SBool))
+		want := val
+		if neg {
+			want = Not(val)
+		}
+		comp := "obs:" + flagPath
+		a := fg.get(fg.cur, comp, ArrSort(SBool))
+		fg.set(comp, Store(a, idx, And(Select(h, idx), want)))
+	}
 }
 
 func (fg *FnGen) lockRelease(comp string, idx Term, pos token.Pos, path string) {
@@ -111,6 +176,7 @@ func (fg *FnGen) lockRelease(comp string, idx Term, pos token.Pos, path string) 
 		fg.oblige("lockinv", path, fg.evalBool(d.Expr, env), pos, "lock invariant re-established at unlock: "+d.Src)
 	}
 	fg.set(comp, Store(a, idx, TFalse))
+	fg.clearObservations(path, idx)
 }
 
 // atomics -------------------------------------------------------------------------------
@@ -212,6 +278,7 @@ func (fg *FnGen) atomicCall(full string, args []*Val, resT types.Type, pos token
 	switch method {
 	case "Load":
 		v := fg.atomicRefresh(comp, idx, sort, path)
+		fg.recordObservation(path, idx, v)
 		r := &Val{T: resT, L: []Term{v}}
 		if len(layout(resT)) != 1 {
 			return fg.freshVal(resT, "atomic.load"), true
@@ -238,6 +305,7 @@ func (fg *FnGen) atomicCall(full string, args []*Val, resT types.Type, pos token
 		fg.atomicWriteCheckCond(path, idx, okc, args[2], pos)
 		a := fg.get(fg.cur, comp, ArrSort(sort))
 		fg.set(comp, Store(a, idx, Ite(okc, args[2].one(), cur)))
+		fg.casPermission(path, idx, okc, args, pos)
 		return &Val{T: resT, L: []Term{okc}}, true
 	case "Swap":
 		cur := fg.atomicRefresh(comp, idx, sort, path)
@@ -278,7 +346,7 @@ func (fg *FnGen) guardedLoad(l *Loc, x ssa.Instruction) {
 		return
 	}
 	d := fg.declFor("guarded", l.Prefix)
-	if d == nil {
+	if d == nil || fg.c == nil {
 		return
 	}
 	// Args: T.f by T.mu [when !T.flag]
@@ -290,21 +358,13 @@ func (fg *FnGen) guardedLoad(l *Loc, x ssa.Instruction) {
 	goal := Select(h, l.Base)
 	desc := "field " + l.Prefix + " is read only while " + lockPath + " is held"
 	if len(d.Args) >= 5 && d.Args[3] == "when" {
-		flag := d.Args[4]
-		neg := strings.HasPrefix(flag, "!")
-		flag = strings.TrimPrefix(flag, "!")
+		flag := strings.TrimPrefix(d.Args[4], "!")
 		fpath := fg.resolveSiblingPath(l.Prefix, flag)
-		a := fg.get(fg.cur, "A:"+fpath, ArrSort(SBool))
-		known := Select(a, l.Base)
-		// the flag value must have been observed under the lock: A: holds the last observed value, which
-		// is stable while the guarding lock is held (atomicguard). Observation freshness is ensured
-		// because acquiring the lock havocs the flag.
-		if neg {
-			goal = And(goal, Not(known))
-		} else {
-			goal = And(goal, known)
-		}
-		desc += " and " + d.Args[4] + " was observed under it"
+		// obs:<flag>[base]: the flag was read with the wanted value while the guarding lock has been held
+		// continuously since (cleared at every Lock/Unlock of that lock)
+		o := fg.get(fg.cur, "obs:"+fpath, ArrSort(SBool))
+		goal = And(goal, Select(o, l.Base))
+		desc += " and " + d.Args[4] + " was observed under it (within the same critical section)"
 	}
 	fg.oblige("guard", l.Prefix, goal, x.Pos(), desc)
 }
@@ -377,7 +437,7 @@ func (fg *FnGen) closeChan(ch *Val, pos token.Pos) {
 	fg.set(comp, Add(cur, IntLit(1)))
 	// per-channel closed flag: closing twice panics
 	cc := fg.get(fg.cur, "closed:chan", ArrSort(SBool))
-	if fg.safety("close") {
+	if fg.c != nil && fg.c.Safety["close"] {
 		fg.oblige("close.once", "chan", Not(Select(cc, ch.one())), pos, "channel is not already closed by this function")
 		fg.oblige("close.nonnil", "chan", Not(Eq(ch.one(), IntLit(0))), pos, "close of nil channel")
 	}
@@ -418,4 +478,62 @@ func (fg *FnGen) selectInstr(x *ssa.Select) {
 	}
 	fg.assume(And(Le(lo, idx), Lt(idx, IntLit(int64(len(x.States))))))
 	fg.bind(x, r)
+}
+
+// guardedStore: stores to a plain field declared `guarded T.f by T.mu` need the lock as well.
+func (fg *FnGen) guardedStore(l *Loc, pos token.Pos) {
+	if l.Elem || fg.c == nil {
+		return
+	}
+	d := fg.declFor("guarded", l.Prefix)
+	if d == nil || len(d.Args) < 3 {
+		return
+	}
+	if fg.isFreshBase(l.Base) {
+		return
+	}
+	lockPath := fg.resolveSiblingPath(l.Prefix, d.Args[2])
+	h := fg.get(fg.cur, "held:"+lockPath, ArrSort(SBool))
+	fg.oblige("guard.store", l.Prefix, Or(Select(h, l.Base), Ge(l.Base, fg.allocEntry)), pos, "field "+l.Prefix+" is written only while "+lockPath+" is held (or on an object created by this call)")
+}
+
+func (fg *FnGen) isFreshBase(base Term) bool {
+	for _, r := range fg.localAllocs {
+		if r.S == base.S {
+			return true
+		}
+	}
+	return false
+}
+
+// casPermission: `decl closeperm T.perm from cas T.flag` — the winning CompareAndSwap(false,true) on a
+// monotone flag creates the (unique) permission T.perm. Discipline invariant (DESIGN §2.7): perm is only
+// ever created here and the flag is monotone, hence perm => flag; a successful CAS saw flag == false,
+// so no permission existed before.
+func (fg *FnGen) casPermission(flagPath string, idx Term, success Term, args []*Val, pos token.Pos) {
+	for _, d := range fg.g.cs.Decls {
+		if d.Kind != "closeperm" || len(d.Args) < 4 {
+			continue
+		}
+		flag := d.Args[3]
+		if !strings.HasSuffix(flagPath, "."+flag) && !strings.HasSuffix(flagPath, flag) {
+			continue
+		}
+		// only CAS(false, true)
+		if len(args) < 3 || args[1].one().S != "false" || args[2].one().S != "true" {
+			continue
+		}
+		pf := d.Args[0]
+		k := strings.LastIndex(pf, ".")
+		i := strings.LastIndex(flagPath, ".")
+		if k < 0 || i < 0 {
+			continue
+		}
+		comp := "H:" + flagPath[:i] + ".$" + pf[k+1:]
+		a := fg.get(fg.cur, comp, ArrSort(SBool))
+		fg.assume(Implies(success, Not(Select(a, idx))))
+		fg.ghostFieldWriteCheck(&Loc{Prefix: strings.TrimPrefix(comp, "H:")}, pos)
+		fg.set(comp, Store(a, idx, Or(Select(a, idx), success)))
+		fg.note("discipline invariant: " + pf + " implies " + flag + " (permission is created only by the winning CAS on the monotone flag)")
+	}
 }
